@@ -797,9 +797,8 @@ def report(ctx, T):
             ctx.violation("correspondence", rec, found=False)
 
 
-def run(ctx):
-    runner = common.standard_prelude(ctx)
-    T = Tally(ctx)
+def correspondence(ctx, runner, T):
+    """layers A-D; everything is recorded in T"""
     rng = ctx.rng
     if ctx.quick():
         values = quick_pool(rng)
@@ -816,7 +815,7 @@ def run(ctx):
     extra = []
     if not ctx.quick():
         big = random_values(rng, 200, 2000)
-        for _ in range(20000):
+        for _ in range(12000):
             x, y = rng.choice(big + values), rng.choice(big + values)
             extra.append(((x, rng.choice("SB") if in_i64(x) else "B"), (y, rng.choice("SB") if in_i64(y) else "B")))
     t0 = time.time()
@@ -834,6 +833,14 @@ def run(ctx):
     t0 = time.time()
     prime_sweep(ctx, runner, T, -20, ctx.n(3000, 100_000), bound)
     common.log(f"[C06] prime sweep in {time.time() - t0:.1f}s")
+    return {"values": values, "ops": ops, "pairs": pairs, "extra": extra, "prod_stats": prod_stats}
+
+
+def run(ctx):
+    runner = common.standard_prelude(ctx)
+    T = Tally(ctx)
+    info = correspondence(ctx, runner, T)
+    values, ops, pairs, extra, prod_stats = info["values"], info["ops"], info["pairs"], info["extra"], info["prod_stats"]
     report(ctx, T)
     ctx.coverage.update({
         "evaluations": T.evals, "distinct_nontrivial": len(T.nontrivial), "exhaustive": False,
